@@ -8,6 +8,24 @@ HERE = os.path.dirname(os.path.dirname(os.path.abspath(__file__)))
 
 # id -> (technique, level text, level note, design ref)
 CLAIMS = {
+    "C06": (
+        "abstract interpretation of heap.c in the zone (difference-bound) domain over the clang JSON AST under a "
+        "data-structure invariant; exhaustive comparison truth tables over the finite ordering domain for the C sift "
+        "conditions and Time.__lt__; protocol / pairing rules on heap_scheduler.py; three-way interface agreement "
+        "(cffi cdef, heap.h, heap.c) through clang",
+        "Decides for every history of heap operations (any number of inserts, lazy deletions, growth across 64, 128, ...) "
+        "that every heap_entries[e] access is within the allocation, no unsigned counter underflows and the invariant "
+        "(size=0,length=0) or (1<=length, length+1<=size) is restored at every exit -- the clause 'the C code performs no "
+        "invalid memory access'; that all time comparisons in the heap and in Time.__lt__ are exactly the strict "
+        "lexicographic (quotient, remainder) order on all 9 orderings; that an event is stored with its handler's current "
+        "counter, trashing increments exactly that counter, the root is discarded iff current > stored, overflow deletes "
+        "before resetting, empty schedulers raise SchedulerError, pickling keeps every field and counter, and cffi sees "
+        "the same signatures and struct layout as the C code. That the sift loops maintain heap order (so the returned "
+        "entry is the minimum) and agreement of the schedulers on concrete histories are not decided.",
+        "Trusted: clang 14 as parser; the zone transfer functions of jfsa/heapzone.py (halving <= operand, doubling >= "
+        "operand + its lower bound, no wrap-around); realloc/calloc succeed; role of struct fields by position (first "
+        "double = quotient, second = remainder).",
+        "DESIGN.md section 3, C06"),
     "C07": (
         "must-dataflow (typestate STORED/TIME/SLICED) over send_event_time;send_out_state of all 19 handler classes with "
         "MRO-resolved helper inlining; package-wide who-may-write inventory with receiver provenance; value-provenance "
